@@ -201,6 +201,10 @@ def evaluate(tree, env, n):
         elif name in ("VAR", "STD"):
             m = sum(w) / len(w)
             r = sum((x - m) ** 2 for x in w) / len(w)
+            # x - m cancels: the relative rounding error of the result is about eps * max|x| / sqrt(r); beyond 1e-10
+            # the value depends on the order of the additions, not on the documented definition
+            if r <= 1e-10 * max(x * x for x in w) and len(set(w)) > 1:
+                raise Undef("VAR/STD dominated by cancellation (spread tiny against magnitude)")
             if name == "STD":
                 r = math.sqrt(r)
         elif name in ("MSE", "RMSE"):
